@@ -1233,6 +1233,10 @@ def _origin_label(v, o, node_params, depth):
             return 'descends'
         if re.search(r'Option::<T>::(map|and_then|filter|or_else|or)$', p) and t['args']:
             return _arg_label(v, t['args'][0], node_params, depth + 1)
+        # an iterator adaptor that only drops / reorders / casts elements: the elements are those of the receiver (`children().filter_map(cast)...fold(..)`)
+        if re.search(r'Iterator>?::(filter|filter_map|take_while|skip_while|skip|take|rev|enumerate|peekable|by_ref|step_by|map_while)$|IntoIterator>?::into_iter$|'
+                     r'Itertools>?::with_position$|::iter$', p) and t['args']:
+            return _arg_label(v, t['args'][0], node_params, depth + 1)
         # FnMut::call / local helper returning a node: unknown -> treat as descends only if its args descend
         return 'unknown'
     if kind == 'agg':
@@ -1376,6 +1380,11 @@ def _closure_edge_label(w, b, v, agg_stmt, cb):
             if u['index'] == 0 or not t['args']:
                 return 'same'
             lab = _arg_label(v, t['args'][0], nps)
+            if lab == 'unknown' and t['args'][0].get('o') in ('move', 'copy') and _is_iter_like(b.locals[t['args'][0]['p']['l']]['ty']) \
+                    and re.search(r'Iterator>?::\w+$|Itertools>?::\w+$', callee_path(t) or ''):
+                # the closure is invoked with the items of an iterator (`row.into_iter().fold(..)`): the loop form `for x in it { f(x) }` is
+                # judged the same way (an item of an iterator is never the function's own node unless the provenance says so: 'same')
+                return 'descends'
             return 'descends' if lab == 'descends' else 'same'
     return 'same'
 
